@@ -100,8 +100,7 @@ def build_test(scratch, pkg, out, race=False, use_overlay=True, tags=None):
         cmd += ["-overlay", os.path.join(scratch, "overlay", "overlay.json")]
     if race:
         cmd += ["-race"]
-    if tags:
-        cmd += ["-tags", tags]
+    cmd += ["-tags", tags or "verif"]  # the guarded hooks of /repo (MANIFEST.hooks) are always on in simulation binaries
     cmd += ["./" + pkg]
     t0 = time.time()
     run(cmd, cwd=sim)
